@@ -94,8 +94,8 @@ def gen_histories(ctx, binp, pid):
                 hs.append(l2gen.fill_history(w, rnd, nops + 10))
                 continue
             # valid configuration changes in the middle of histories (C09 compares with the pristine state of the
-            # configuration in force, so it only gets identical re-deliveries)
-            rc = l2gen.valid_configs(w, rnd) if pid in ("C01", "C03", "C04", "C05", "C12") else None
+            # configuration in force: known again once a configuration is applied with nothing alive)
+            rc = l2gen.valid_configs(w, rnd) if pid in ("C01", "C03", "C04", "C05", "C09", "C12") else None
             hs.append(l2gen.lifecycle_history(w, rnd, nops, disorder=disorder, fuzz=0.6 if pid == "C14" else 0.0, reconf_cfgs=rc))
     return hs
 
